@@ -423,6 +423,12 @@ def _lead_ws(value: str) -> int:
     return len(s) - len(s.lstrip())
 
 
+def _overlong(value: str) -> bool:
+    """a TripleQuoted node that holds more than one string: its own delimiter occurs more than twice"""
+    q = value.strip()[:3]
+    return q in ('"' * 3, "'" * 3) and value.count(q) > 2
+
+
 def _wrong_open_paren(v: str) -> bool:
     """Does `value.find("(", function_name_starts_at)` miss the parenthesis that opens the parameter list?  (It does when `def` is
     preceded by neither a blank nor `)` — a tab, a newline — and something before it, e.g. a decorator, has a parenthesis.)"""
@@ -455,7 +461,7 @@ def align(nb, na, parses):
         if src_node is None:
             return ["header-last-node"]
         fl = []
-        if src_node["kind"] == "TripleQuoted" and src_node["value"].count('"' * 3) + src_node["value"].count("'" * 3) > 2:
+        if src_node["kind"] == "TripleQuoted" and _overlong(src_node["value"]):
             # the scanner only ends a triple-quoted node on a line that ends with the quotes: `"""Doc."""  # noqa` runs on to the end of
             # the *next* docstring, and replacing "the docstring" deletes everything in between
             fl.append("docstring-node-overlong")
@@ -525,7 +531,7 @@ def align(nb, na, parses):
             import re
 
             fl = ["async-docstring-removed" if re.search(r"\basync\s+def\b", hdr["value"]) else "docstring-removed"]
-            if x["value"].count('"' * 3) + x["value"].count("'" * 3) > 2:
+            if _overlong(x["value"]):
                 fl.append("docstring-node-overlong")
             out.append({"what": "doc-removed", "start": line, "end": line, "hdr": hdr, "op": (i, 1, []), "flags": fl, "old": x["value"]})
             i += 1
@@ -733,7 +739,9 @@ WITNESSES = [
     ("w-docstring-then-comment", ["C07-docstring-node-overlong"],
      'class C:\n    """Doc."""  # noqa\n    def f(self, a):\n        """F doc."""\n        return a\n\ndef h(a):\n' + REST_DOC + "    return a\n", ("rest", True, None), None),
     ("w-docstring-then-comment-async", ["C07-docstring-node-overlong-definitions", "C07-docstring-node-overlong-comments", "C07-docstring-node-overlong-lines"],
-     'async def g():\n    """Summary."""  # noqa\n    x = 1\n\n\ndef h(a):\n' + REST_DOC + "    return a\n", ("rest", True, None), None),
+     'async def g():\n    """Summary."""  # noqa\n    x = 1\n\n\ndef h(a=1):\n    """Doc h."""\n    return a\n', ("rest", True, None), None),
+    ("w-docstring-then-comment-statement", ["C07-docstring-node-overlong-statements", "C07-docstring-node-overlong-lines"],
+     'def g(a=1):\n    """Doc g."""  # noqa\n    q = """not a doc"""\n    return a\n', ("rest", True, None), None),
     ("w-deco-paren-and-arrow-invalid", ["C07-paren-and-arrow-invalid"], "@a.b  # x -> y\n@dec() \ndef g(a: int):\n    return a\n", ("rest", False, None), None),
     ("w-header-comment", ["C07-resynth-comment"], "def f(\n    a,  # first\n):\n" + REST_DOC + "    pass\n", ("rest", True, None), "def f(a: int):"),
     ("w-tail-comment", ["C07-tail-invalid"], "def g(a):  # c\n    return a\n", ("rest", False, None), None),
